@@ -2,6 +2,7 @@ package rules
 
 import (
 	"fmt"
+	"go/token"
 	"go/types"
 	"sort"
 	"strings"
@@ -260,6 +261,88 @@ func ruleTR(w *world.World, r *report.RuleResult) {
 	}
 }
 
+// guardedByZeroDeadline: the call is reached only over one edge of a zero test of a deadline
+// (x.ExpireAt.IsZero(), x.ExpireAt == time.Time{}).
+func guardedByZeroDeadline(c ssa.CallInstruction) bool {
+	b := c.Block()
+	for d := b.Idom(); d != nil; d = d.Idom() {
+		iff := world.IfOf(d)
+		if iff == nil || len(d.Succs) != 2 {
+			continue
+		}
+		cond := iff.Cond
+		if u, ok := cond.(*ssa.UnOp); ok && u.Op == token.NOT {
+			cond = u.X
+		}
+		v, _, ok := zeroTimeTest(cond)
+		if !ok || !derivesFrom(v, isExpireAtField, 0) {
+			continue
+		}
+		through := func(s *ssa.BasicBlock) bool { return len(s.Preds) == 1 && (s == b || s.Dominates(b)) }
+		if through(d.Succs[0]) != through(d.Succs[1]) {
+			return true
+		}
+	}
+	return false
+}
+
+// rcRaftRestore: the raft FSM restores keys itself (it does not go through the NewSugarDB callbacks):
+// every SetValues of a restored key is paired with an unconditional SetExpiry of its deadline.
+func rcRaftRestore(w *world.World, r *report.RuleResult) {
+	fn := w.Func("internal/raft.(*FSM).Restore")
+	if fn == nil {
+		return
+	}
+	var sv, se []ssa.CallInstruction
+	for _, c := range world.Calls(fn) {
+		if n, ok := fieldFuncCall2(c); ok {
+			switch n {
+			case "SetValues":
+				sv = append(sv, c)
+			case "SetExpiry":
+				se = append(se, c)
+			}
+		}
+	}
+	key := world.FuncName(fn) + "|set-key-data"
+	switch {
+	case len(sv) == 0:
+		r.Fail(key, w.Pos(fn.Pos()), "the raft FSM's Restore never stores the restored values")
+	case len(se) == 0:
+		r.Fail(key, w.Pos(fn.Pos()), "the raft FSM's Restore never sets the restored deadlines: keys lose their expiry on a node that is caught up by snapshot")
+	default:
+		bad := false
+		for _, c := range se {
+			if guardedByZeroDeadline(c) {
+				bad = true
+				r.Fail(key, w.InstrPos(c), "the raft FSM's Restore skips SetExpiry when the restored deadline is zero: SetValues lets a value written over a live entry inherit that entry's deadline, so a follower that is caught up by InstallSnapshot keeps a deadline the leader has removed (PERSIST, DEL+SET) - the replicas diverge and the key later disappears on that node only")
+			}
+		}
+		if !bad {
+			r.OK(key, w.InstrPos(se[0]), "SetValues and an unconditional SetExpiry(data.ExpireAt) for every restored key")
+		}
+	}
+}
+
+// fieldFuncCall2: name of the struct field a dynamic call goes through (fsm.options.SetValues(...)).
+func fieldFuncCall2(c ssa.CallInstruction) (string, bool) {
+	if c.Common().IsInvoke() || c.Common().StaticCallee() != nil {
+		return "", false
+	}
+	v := c.Common().Value
+	if u, ok := v.(*ssa.UnOp); ok && u.Op == token.MUL {
+		if fa, ok := u.X.(*ssa.FieldAddr); ok {
+			return world.FieldName(fa), true
+		}
+	}
+	if f, ok := v.(*ssa.Field); ok {
+		if st, ok := f.X.Type().Underlying().(*types.Struct); ok {
+			return world.CanonField(st.Field(f.Field)), true
+		}
+	}
+	return "", false
+}
+
 // ---- RC: restore / state closures in NewSugarDB ----
 
 func ruleRC(w *world.World, r *report.RuleResult) {
@@ -268,6 +351,7 @@ func ruleRC(w *world.World, r *report.RuleResult) {
 		r.Err = fmt.Errorf("sugardb.NewSugarDB not found")
 		return
 	}
+	rcRaftRestore(w, r)
 	nSet, nGet := 0, 0
 	for _, fn := range ctor.AnonFuncs {
 		sig := fn.Signature
@@ -344,6 +428,9 @@ func ruleRC(w *world.World, r *report.RuleResult) {
 				}
 				if !okExp {
 					bad = append(bad, "the deadline given to setExpiry is not data.ExpireAt")
+				}
+				if guardedByZeroDeadline(se) {
+					bad = append(bad, "setExpiry is skipped when the restored deadline is zero: setValues lets a value written over a live entry inherit that entry's deadline, so a key restored without expiry over a live volatile key keeps the old deadline")
 				}
 				if !okKey {
 					bad = append(bad, "setExpiry is called for a different key")
